@@ -63,33 +63,41 @@ class Topo:
 
     def __init__(self, nested):
         self.nested = nested
-        leaves = []
-
-        def cnt(x):
-            if isinstance(x, list):
-                cnt(x[0]); cnt(x[1])
-            else:
-                leaves.append(x)
-
-        cnt(nested)
-        self.n = len(leaves)
         self.children = {}
         self.parent = {}
         self.post = []  # (node, left, right) in post-order
-        nxt = itertools.count(self.n)
-
-        def num(x):
+        # iterative post-order (caterpillars with thousands of taxa exceed the recursion limit)
+        n = 0
+        stack = [nested]
+        while stack:
+            x = stack.pop()
             if isinstance(x, list):
-                l = num(x[0]); r = num(x[1])
-                i = next(nxt)
+                stack.append(x[0]); stack.append(x[1])
+            else:
+                n += 1
+        self.n = n
+        nxt = n
+        ids = {}  # id(list object) -> node number
+        stack = [(nested, False)]
+        while stack:
+            x, done = stack.pop()
+            if not isinstance(x, list):
+                continue
+            if not done:
+                stack.append((x, True))
+                stack.append((x[1], False))
+                stack.append((x[0], False))
+            else:
+                l = ids[id(x[0])] if isinstance(x[0], list) else x[0]
+                r = ids[id(x[1])] if isinstance(x[1], list) else x[1]
+                i = nxt
+                nxt += 1
+                ids[id(x)] = i
                 self.children[i] = (l, r)
                 self.parent[l] = i
                 self.parent[r] = i
                 self.post.append((i, l, r))
-                return i
-            return x
-
-        self.root = num(nested)
+        self.root = ids[id(nested)] if isinstance(nested, list) else nested
 
     def clades(self):
         """canonical form: frozenset of frozensets of leaf labels below each internal node"""
@@ -119,14 +127,31 @@ class Topo:
         return "(" + self._w(l, names, lengths, fmt) + "," + self._w(r, names, lengths, fmt) + ");"
 
     def _w(self, i, names, lengths, fmt):
-        if i in self.children:
-            l, r = self.children[i]
-            s = "(" + self._w(l, names, lengths, fmt) + "," + self._w(r, names, lengths, fmt) + ")"
-        else:
-            s = names[i]
-        if lengths is not None:
-            s += ":" + (fmt % lengths[i])
-        return s
+        """newick of the subtree below node i (iterative)"""
+        out = []
+        stack = [("open", i)]
+        while stack:
+            what, v = stack.pop()
+            if what == "txt":
+                out.append(v)
+                continue
+            if what == "close":
+                if lengths is not None:
+                    out.append(":" + (fmt % lengths[v]))
+                continue
+            if v in self.children:
+                l, r = self.children[v]
+                out.append("(")
+                stack.append(("close", v))
+                stack.append(("txt", ")"))
+                stack.append(("open", r))
+                stack.append(("txt", ","))
+                stack.append(("open", l))
+            else:
+                out.append(names[v])
+                if lengths is not None:
+                    out.append(":" + (fmt % lengths[v]))
+        return "".join(out)
 
 
 def all_ins(n):
